@@ -42,6 +42,20 @@ Fixpoint poll_loop (fuel : nat) (poll : Z) (c : ctxend) (ev : option Z) (now : Z
         end
   end.
 
+(* ---- a write on a TCP connection that was upgraded to TLS (tcp_transport.go ctxConn.Write over crypto/tls) ----
+   crypto/tls makes a write that timed out permanent (its error is no longer "temporary"), so the loop does not go
+   round: the write ends with that error at the armed deadline - the context's deadline, or the end of the first
+   poll interval - unless the peer took the bytes before. *)
+Inductive wres := WOk | WCtx | WTimeout.
+Definition tls_write (poll : Z) (c : ctxend) (ev : option Z) (now : Z) : Z * wres :=
+  if ended c now then (now, WCtx)
+  else
+    let arm := match c with CDeadline t => Z.min (now + poll) t | _ => now + poll end in
+    match ev with
+    | Some e => if Z.leb e arm then (Z.max now e, WOk) else (arm, WTimeout)
+    | None => (arm, WTimeout)
+    end.
+
 (* ---- a select on the context and the event ---- *)
 Definition prompt (c : ctxend) (ev : option Z) (now : Z) : option (Z * tres) :=
   if ended c now then Some (now, TCtxErr)
